@@ -83,7 +83,10 @@ ASSUMPTIONS = [
 
 NUMS = [-1000000, -3, -1, 0, 0.5, 1, 2, 2.5, 3, 7, 10, 99.5, 100, 1000000]
 TEXTS = ['a', 'A', 'ab', 'Ab', 'abc', 'b', 'B', 'ba', 'c', 'm', 'x', 'Zed', 'zed', '0', '1', '2', '10', '5',
-         'a1', '100']
+         'a1', '100',
+         # punctuation between Z and a sorts before letters in Excel; folding case the other way moves it behind
+         # them.  (b_/B^ only ever meet a letter, a prefix or each other at the first difference.)
+         'b_', 'B^']
 BOOLS = [False, True]
 WILD_DATA = ['a?', 'a*', 'a~', 'a~b', 'a.c', 'abc', 'axc', 'a.cd', 'abcd', '(ab', '(a', '[ab', 'a+', 'aa',
              'a\nb', 'a b', '?', '*', '~', 'a?c', 'ab*', 'éa', 'ÉA', 'a\\b', 'a|b', 'a$', '^a',
